@@ -1,10 +1,10 @@
 SPECIFICATION Spec
 CONSTANTS
-  MaxOps = 4
-  MaxPool = 5
-  MaxGenes = 6
-  MaxNodes = 5
-  MaxGens = 1
+  MaxOps = 3
+  MaxPool = 4
+  MaxGenes = 8
+  MaxNodes = 7
+  MaxGens = 2
   Starts = {2}
 INVARIANTS AllWellFormed AllRetain OneMeaningPerNumber OneRolePerNode CountersAhead RegistryFunctional StepStatements
 CHECK_DEADLOCK FALSE
